@@ -118,6 +118,15 @@ def run(ck, rng, tier):
                 if (s[1:] / s[:-1]).max() <= 0.85 and s[-1] > 0.05 * s[0] and ((X - X.mean(axis=0)) == 0.0).sum() >= 3:
                     break
             ck.count("designed integer data with cells equal to their column mean")
+        elif c == 13:
+            # autoscaling of columns of which one has a standard deviation below 1e-3 (zeroed by the preprocessing): the trace is
+            # that of the remaining columns
+            scaling, mag, nproc = 1, 1.0, 1
+            n, m = rng.randint(10, 14), rng.randint(4, 6)
+            X, s = gen_separated(rng, n, m, 1.0)
+            j_ = rng.randrange(m)
+            X[:, j_] = 3.0 + (X[:, j_] - X[:, j_].mean()) * (3e-4 / max(X[:, j_].std(ddof=1), 1e-300))
+            ck.count("autoscaling with a column below the zero guard")
         elif c == 12:
             # autoscaling (and the other scalings) of columns of which ONE has a scale within 1e-3 of 1 but not 1 (standard
             # deviation / root mean square 1.0008): it is divided by its scale like every other column; retried until the
